@@ -31,7 +31,7 @@ Section Lines.
                             | None => false end in
            cmt_canon (craw n) &&
            (if inline_ok then streq g [" "]
-            else own_line g (if is_line_cmt (craw n) then ind else 0))      (* block comments: column 0, F-05 *)
+            else own_line g (ind))
          else own_line g ind && canon_child n)
         && lines_ok rest (Some n) (if is_cmt n then seen else true)
     end.
@@ -70,7 +70,7 @@ Fixpoint canonical (c : cnode) (ind : nat) : bool :=
                                      | None => false end in
                     cmt_canon (craw n) &&
                     (if inline_ok then streq g [" "]
-                     else own_line g (if is_line_cmt (craw n) then ind + 2 else 0))
+                     else own_line g (ind + 2))
                   else own_line g (ind + 2) && canonical n (ind + 2))
                  && go rest (Some n) (if is_cmt n then seen else true)
              end) body None false
@@ -96,7 +96,7 @@ Fixpoint canonical (c : cnode) (ind : nat) : bool :=
                                      | None => false end in
                     cmt_canon (craw n) &&
                     (if inline_ok then streq g [" "]
-                     else own_line g (if is_line_cmt (craw n) then ind + 2 else 0))
+                     else own_line g (ind + 2))
                   else own_line g (ind + 2) && canonical n (ind + 2))
                  && go rest (Some n) (if is_cmt n then seen else true)
              end) body None false
